@@ -1,6 +1,7 @@
 package simkit
 
 import (
+	"fmt"
 	"time"
 
 	"ergo.services/ergo/gen"
@@ -18,6 +19,8 @@ func StartLocalNode(e *Env, name string, mod func(o *gen.NodeOptions)) gen.Node 
 	o.Log.DefaultLogger.Disable = true
 	o.Log.Level = gen.LogLevelError
 	o.Version = SimVersion
+	// panics recovered inside the node are logged at Panic level: keep them in the run's history
+	o.Log.Loggers = append(o.Log.Loggers, gen.Logger{Name: "simpanic", Logger: &panicLogger{e: e, node: name}, Filter: []gen.LogLevel{gen.LogLevelPanic}})
 	if mod != nil {
 		mod(&o)
 	}
@@ -57,4 +60,24 @@ func StopNode(e *Env, n gen.Node, graceful bool, limit time.Duration) bool {
 		n.StopForce()
 		return false
 	}
+}
+
+type panicLogger struct {
+	e    *Env
+	node string
+}
+
+func (l *panicLogger) Log(m gen.MessageLog) {
+	l.e.Probe("panic-recovered-in-node")
+	l.e.mu.Lock()
+	l.e.panics = append(l.e.panics, fmt.Sprintf("%s: "+m.Format, append([]any{l.node}, m.Args...)...))
+	l.e.mu.Unlock()
+}
+func (l *panicLogger) Terminate() {}
+
+// Panics returns the panic-level log lines of all simulated nodes of this run.
+func (e *Env) Panics() []string {
+	e.mu.Lock()
+	defer e.mu.Unlock()
+	return append([]string(nil), e.panics...)
 }
